@@ -266,34 +266,20 @@ func evalSwitch(pkg *packages.Package, stmts []ast.Stmt, env map[types.Object]co
 }
 
 func r063(c *Ctx, r *R) {
-	fd, pkg := c.decl(r, "pintracker/optracker", "Operation.ToTrackerStatus")
-	if fd == nil {
-		return
-	}
-	// bind `x := op.Type()` and `y := op.Phase()`
-	var typObj, phObj types.Object
-	for _, st := range fd.Body.List {
-		as, ok := st.(*ast.AssignStmt)
-		if !ok || len(as.Lhs) != 1 || len(as.Rhs) != 1 {
-			continue
-		}
-		call, ok := as.Rhs[0].(*ast.CallExpr)
-		id, ok2 := as.Lhs[0].(*ast.Ident)
-		if !ok || !ok2 {
-			continue
-		}
-		switch {
-		case strings.HasSuffix(funcFullName(pkg, call), "optracker.Operation).Type"):
-			typObj = pkg.TypesInfo.ObjectOf(id)
-		case strings.HasSuffix(funcFullName(pkg, call), "optracker.Operation).Phase"):
-			phObj = pkg.TypesInfo.ObjectOf(id)
-		}
-	}
+	f := c.fn(r, "pintracker/optracker", "Operation.ToTrackerStatus")
 	ot := c.namedType(r, "pintracker/optracker", "OperationType")
 	pt := c.namedType(r, "pintracker/optracker", "Phase")
-	if typObj == nil || phObj == nil || ot == nil || pt == nil {
-		r.Und("shape", fd.Pos(), "ToTrackerStatus: `typ := op.Type(); ph := op.Phase()` not recognised")
+	ts := c.namedType(r, "api", "TrackerStatus")
+	if f == nil || ot == nil || pt == nil || ts == nil {
 		return
+	}
+	nameOf := func(v constant.Value) string {
+		for _, k := range declaredConsts(ts) {
+			if constant.Compare(k.Val(), token.EQL, v) {
+				return k.Name()
+			}
+		}
+		return "?"
 	}
 	want := func(typ, ph string) string {
 		switch typ {
@@ -325,22 +311,34 @@ func r063(c *Ctx, r *R) {
 	seen := map[string]string{}
 	for _, tk := range declaredConsts(ot) {
 		for _, pk := range declaredConsts(pt) {
-			env := map[types.Object]constant.Value{typObj: tk.Val(), phObj: pk.Val()}
-			res, ok := evalSwitch(pkg, fd.Body.List, env)
 			key := tk.Name() + "," + pk.Name()
+			// concrete evaluation of the function with Type() and Phase()
+			// bound to this pair (independent of switch/if form)
+			_, val, ok := ssaEval(f, func(v ssa.Value) (constant.Value, bool) {
+				if call, isC := v.(*ssa.Call); isC {
+					switch {
+					case nameMatches(callName(call.Common()), "optracker.Operation).Type"):
+						return tk.Val(), true
+					case nameMatches(callName(call.Common()), "optracker.Operation).Phase"):
+						return pk.Val(), true
+					}
+				}
+				return nil, false
+			})
 			if !ok {
-				r.Und("pair:"+key, fd.Pos(), "could not evaluate ToTrackerStatus for (%s)", key)
+				r.Und("pair:"+key, f.Pos(), "could not evaluate ToTrackerStatus for (%s)", key)
 				continue
 			}
+			res := nameOf(val)
 			w := want(tk.Name(), pk.Name())
 			if tk.Name() == "OperationUnknown" {
-				r.Check(statusClass(res) == "undefined", "pair:"+key, fd.Pos(), "unknown operations are undefined", "unknown operation maps to "+res)
+				r.Check(statusClass(res) == "undefined", "pair:"+key, f.Pos(), "unknown operations are undefined", "unknown operation maps to "+res)
 				continue
 			}
-			r.Check(statusClass(res) == w, "pair:"+key, fd.Pos(), fmt.Sprintf("(%s) -> %s (class %s)", key, res, w), fmt.Sprintf("(%s) maps to %s (class %s), the property requires class %s", key, res, statusClass(res), w))
+			r.Check(statusClass(res) == w, "pair:"+key, f.Pos(), fmt.Sprintf("(%s) -> %s (class %s)", key, res, w), fmt.Sprintf("(%s) maps to %s (class %s), the property requires class %s", key, res, statusClass(res), w))
 			if tk.Name() == "OperationPin" || tk.Name() == "OperationUnpin" {
 				if prev, dup := seen[res]; dup {
-					r.Bad("distinct:"+res, fd.Pos(), "(%s) and (%s) both map to %s: the views can no longer tell them apart", prev, key, res)
+					r.Bad("distinct:"+res, f.Pos(), "(%s) and (%s) both map to %s: the views can no longer tell them apart", prev, key, res)
 				}
 				seen[res] = key
 			}
